@@ -780,14 +780,21 @@ func c03RefTerm(before resmap.ResMap, cls string, after resmap.ResMap) (string, 
 	}
 	var as []string
 	if cls == ClsOk && after != nil {
-		for _, r := range after.Resources() {
+		bres := before.Resources()
+		for i, r := range after.Resources() {
 			n := c03StrippedNode(r)
 			t, ok := coqNode(n.YNode())
 			if !ok {
 				return "", false
 			}
 			scalarValues(n.YNode(), vals)
-			as = append(as, t)
+			if i < len(bres) {
+				if bt, ok := coqNode(c03StrippedNode(bres[i]).YNode()); ok && bt == t {
+					as = append(as, "None")
+					continue
+				}
+			}
+			as = append(as, "(Some "+t+")")
 		}
 	}
 	return fmt.Sprintf("(CRef %s %s [%s] %s [%s])", c03CsTerm(pairs), c03NonstrTerm(vals),
@@ -1503,7 +1510,7 @@ func c03RunSyn(r *Run, s c03Syn, rules []krusty.VerifC03Rule) {
 // ---------------------------------------------------------------- driver
 
 func runC03(r *Run, rng *Rng, tier string) error {
-	nBuild, nSyn, nLaw := 110, 260, 250
+	nBuild, nSyn, nLaw := 90, 240, 250
 	if tier == "thorough" {
 		nBuild, nSyn, nLaw = 1500, 4000, 6000
 	}
